@@ -29,6 +29,51 @@ fn viol(ctx: &mut Ctx, key: &str, size: usize, desc: String, argv: Vec<String>) 
     });
 }
 
+/// decisions an exploration may branch on (0 = all): see `ExploreCfg::window`
+static WINDOW: std::sync::atomic::AtomicUsize = std::sync::atomic::AtomicUsize::new(0);
+
+fn window_now() -> Option<usize> {
+    match WINDOW.load(std::sync::atomic::Ordering::Relaxed) {
+        0 => None,
+        w => Some(w),
+    }
+}
+
+fn with_window<R>(w: usize, f: impl FnOnce() -> R) -> R {
+    WINDOW.store(w, std::sync::atomic::Ordering::Relaxed);
+    let r = f();
+    WINDOW.store(0, std::sync::atomic::Ordering::Relaxed);
+    r
+}
+
+/// one longer record followed by `n` short ones (three distinct, in rotation): more records than a 16-bit count holds
+pub fn many_after_one(n: usize) -> Vec<Vec<u8>> {
+    let mut v = vec![long_record(150, 3)];
+    let short = [b"ACGTTGCAAGCT".to_vec(), b"GGATCCGATGCA".to_vec(), b"TTTTTTTTTTTT".to_vec()];
+    v.extend((0..n).map(|i| short[i % 3].clone()));
+    v
+}
+
+/// "record>task" pairs; runs of consecutive records taken by one task are written as a range
+fn assignment(it: impl Iterator<Item = (u64, usize)>) -> String {
+    let mut out: Vec<String> = Vec::new();
+    let mut run: Option<(u64, u64, usize)> = None;
+    for (rec, task) in it {
+        match run {
+            Some((a, b, t)) if t == task && rec == b + 1 => run = Some((a, rec, t)),
+            Some((a, b, t)) => {
+                out.push(if a == b { format!("{a}>{t}") } else { format!("{a}..{b}>{t}") });
+                run = Some((rec, rec, task));
+            }
+            None => run = Some((rec, rec, task)),
+        }
+    }
+    if let Some((a, b, t)) = run {
+        out.push(if a == b { format!("{a}>{t}") } else { format!("{a}..{b}>{t}") });
+    }
+    out.join(",")
+}
+
 /// machinery failure: never a verdict
 fn machinery(msg: String) -> ! {
     eprintln!("MACHINERY: {}", msg);
@@ -331,6 +376,7 @@ pub fn oligo_explore(ctx: &mut Ctx, case: &OligoCase, bound: Option<u32>, which:
         root: vec![],
         branch: &always,
         max_executions: 3_000_000,
+        window: window_now(),
     };
     let kind = if which == 5 { "C05sched" } else { "C14sched" };
     let mut assignments: BTreeSet<String> = BTreeSet::new();
@@ -567,6 +613,16 @@ pub fn c14(ctx: &mut Ctx) {
             }
         }
     }
+    // a record whose normalised row holds a value just below 1 (one odd window in two million), in the middle and last
+    for (threads, k) in [(1usize, 3usize), (4, 4)] {
+        if sh.mine() {
+            let mut records = crate::vecs::near_one_records();
+            records.swap(1, 2);
+            let case = OligoCase { threads, k, header: k == 4, delim: if k == 4 { ",".into() } else { " ".into() }, records, memory: None };
+            c14_lattice_case(ctx, &case);
+            n += 1;
+        }
+    }
     ctx.rep.count("cases.lattice", n);
     c14_page_boundaries(ctx);
     oligo_reuse(ctx, 14);
@@ -694,6 +750,7 @@ pub fn ctr_explore(ctx: &mut Ctx, case: &CtrCase, bound: Option<u32>, label: &st
         root: vec![],
         branch: &count_only,
         max_executions: 2_000_000,
+        window: window_now(),
     };
     // distinct inter-phase states -> first prefix (complete choice string of the count phases) reaching it
     let mut inter: BTreeMap<String, Vec<u8>> = BTreeMap::new();
@@ -748,6 +805,7 @@ pub fn ctr_explore(ctx: &mut Ctx, case: &CtrCase, bound: Option<u32>, label: &st
                 root: root.clone(),
                 branch: &this_phase,
                 max_executions: 200_000,
+                window: window_now(),
             };
             let stats = explore(&cfg, |prefix, _counted| {
                 let run = ctr_exec(case, &inp, &dir, prefix);
@@ -1016,10 +1074,11 @@ pub fn min_explore(ctx: &mut Ctx, case: &MinCase, mode: &str, bound: Option<u32>
     let cfg = ExploreCfg {
         bound,
         shard: (ctx.shard.idx, ctx.shard.n),
-        split_level: 2,
+        split_level: if window_now().is_some() { 1 } else { 2 },
         root: vec![],
         branch: &always,
         max_executions: 3_000_000,
+        window: window_now(),
     };
     let mut found: Vec<(String, String, Vec<u8>)> = Vec::new();
     let mut orders: BTreeSet<String> = BTreeSet::new();
@@ -1028,7 +1087,7 @@ pub fn min_explore(ctx: &mut Ctx, case: &MinCase, mode: &str, bound: Option<u32>
         engine_health(&res, &what, prefix);
         let choices = res.choices();
         if counted {
-            let asg: String = res.events.iter().filter(|e| e.site == "min.took").map(|e| format!("{}>{}", e.arg, e.task)).collect::<Vec<_>>().join(",");
+            let asg: String = assignment(res.events.iter().filter(|e| e.site == "min.took").map(|e| (e.arg, e.task)));
             orders.insert(format!("{label}:{asg}"));
         }
         if let Err((key, msg)) = verdict {
@@ -1084,6 +1143,19 @@ pub fn c10_sched(ctx: &mut Ctx) {
         min_explore(ctx, &case, "s2m", bound, &format!("s2m.{label}"));
         min_explore(ctx, &case, "m2s", bound, &format!("m2s.{label}"));
     }
+    // more than 2^16 records: every way of preempting the workers while they handle the first records (window of
+    // decisions), each continued by default (the preempted worker resumes after the others have taken everything)
+    {
+        let recs = many_after_one(65_600);
+        for (threads, label) in [(2usize, "N2many"), (3, "N3many")] {
+            let case = MinCase { threads, w: 9, m: 5, records: recs.clone() };
+            let b = ctx.pick(1u32, 2);
+            with_window(ctx.pick(16usize, 40), || {
+                min_explore(ctx, &case, "s2m", Some(b), &format!("s2m.{label}"));
+                min_explore(ctx, &case, "m2s", Some(1), &format!("m2s.{label}"));
+            });
+        }
+    }
     // a record whose output line is far longer than any I/O buffer (thousands of runs) next to short ones:
     // the line must still reach the file as one piece under every interleaving
     let long = long_record(6000, 7);
@@ -1138,6 +1210,9 @@ pub fn c10_big_records(tag: &str) -> Vec<Vec<u8>> {
         "hundred-thousand" => (0..100_001usize).map(|i| long_record(3 + i % 5, i as u64)).collect(),
         "repeating" => crate::vecs::repeating_records(),
         "long-records" => (0..12u64).map(|i| long_record(20_000, 100 + i)).collect(),
+        "reads" => crate::iters::medium_inputs(400),
+        "odd-then-same-256" => crate::vecs::odd_then_same(256),
+        "odd-then-same-65536" => crate::vecs::odd_then_same(65_536),
         "very-long-records" => vec![long_record(40, 1), long_record(100_050, 2), long_record(7, 3), long_record(250_017, 4), long_record(1_000_001, 5)],
         _ => panic!("unknown record set"),
     }
@@ -1232,6 +1307,18 @@ pub fn c10_configs(ctx: &mut Ctx) {
             c10_free(ctx, &MinCase { threads, w, m: mm, records: c10_big_records("very-long-records") }, "very-long-records");
         }
     }
+    for set in ["odd-then-same-256", "odd-then-same-65536"] {
+        for (mm, w, threads) in [(3usize, 0usize, 1usize), (3, 5, 4)] {
+            if sh.mine() {
+                c10_free(ctx, &MinCase { threads, w, m: mm, records: c10_big_records(set) }, set);
+            }
+        }
+    }
+    for (mm, w, threads) in [(7usize, 12usize, 3usize), (10, 0, 4), (15, 31, 16), (28, 40, 2), (5, 6, 1)] {
+        if sh.mine() {
+            c10_free(ctx, &MinCase { threads, w, m: mm, records: c10_big_records("reads") }, "reads");
+        }
+    }
     let longs: Vec<Vec<u8>> = (0..12u64).map(|i| long_record(20_000, 100 + i)).collect();
     for threads in [2usize, 8, 16] {
         if sh.mine() {
@@ -1323,6 +1410,19 @@ pub fn c05_record_set(tag: &str) -> Vec<Vec<u8>> {
             v.extend(gen(6));
             v
         }
+        // one odd record, then 2^8 / 2^16 (and one more) identical records, then another odd one: state that is
+        // recycled per record with a narrow generation counter shows at exactly that distance
+        "odd-then-same-256" => crate::vecs::odd_then_same(256),
+        "odd-then-same-65536" => crate::vecs::odd_then_same(65_536),
+        // a record beyond 2^22 bases of irregular length (not a multiple of any small thread count) between short ones
+        "huge-inside" => {
+            let mut v = gen(2);
+            v.push(crate::iters::long_input(5_000_011, 77));
+            v.extend(gen(4).into_iter().skip(2));
+            v
+        }
+        // read-like records: irregular lengths of tens to thousands of bases, mixed case, U, several ambiguous bytes
+        "reads" => crate::iters::medium_inputs(400),
         // records beyond 100 000 and 1 000 000 bases in the middle and at the end, short ones before and between
         "long-inside" => {
             let mut v = gen(3);
@@ -1349,6 +1449,7 @@ fn c05_write_input(dir: &str, records: &[Vec<u8>], container: &str) -> String {
         "fasta-w3" => (Ser::FastaWrap(3), ".fna", false),
         "fasta-w60" => (Ser::FastaWrap(60), ".fa", false),
         "fastq" => (Ser::Fastq, ".fq", false),
+        "fastq-w5" => (Ser::FastqWrap(5), ".sample.fa.fq", false),
         "fasta-gz" => (Ser::FastaLine, ".fa.gz", true),
         "fastq-gz" => (Ser::Fastq, ".fastq.gz", true),
         _ => panic!("unknown container"),
@@ -1413,9 +1514,9 @@ fn c05_config(ctx: &mut Ctx, set: &str, records: &[Vec<u8>], k: usize, container
 }
 
 pub fn c05_lattice(ctx: &mut Ctx) {
-    let sets = ["one", "two", "five", "thirty-seven", "five-hundred", "long-first", "five-thousand", "repeating", "long-inside"];
+    let sets = ["one", "two", "five", "thirty-seven", "five-hundred", "long-first", "five-thousand", "repeating", "long-inside", "reads"];
     let limits = [1usize, 2, 7, 100, 4usize << 30];
-    let containers = ["fasta", "fasta-w1", "fasta-w3", "fasta-w60", "fastq", "fasta-gz", "fastq-gz"];
+    let containers = ["fasta", "fasta-w1", "fasta-w3", "fasta-w60", "fastq", "fasta-gz", "fastq-gz", "fastq-w5"];
     let delims = [" ", ",", "\t", "::"];
     let mut sh = ctx.shard;
     let mut n = 0u64;
@@ -1455,7 +1556,7 @@ pub fn c05_lattice(ctx: &mut Ctx) {
                         if (set == "long-first" || set == "long-inside") && container == "fasta-w1" {
                             continue;
                         }
-                        if set == "long-inside" && !thorough && !(threads <= 2 || threads == 16) {
+                        if (set == "long-inside" || set == "reads") && !thorough && !(threads <= 2 || threads == 16) {
                             continue;
                         }
                         // records without bases are well-formed in FASTA only
@@ -1535,6 +1636,24 @@ pub fn c05_lattice(ctx: &mut Ctx) {
                     c05_config(ctx, "seventy-thousand", &recs[..nrec], 2, "fasta", threads, limit, writer, nrec % 2 == 1, " ");
                     n += 1;
                 }
+            }
+        }
+    }
+    {
+        let recs = c05_record_set("huge-inside");
+        for (writer, threads) in [("mmap", 1usize), ("mmap", 12), ("batch", 16), ("batch", 7)] {
+            if sh.mine() {
+                c05_config(ctx, "huge-inside", &recs, 4, "fasta", threads, 4 << 30, writer, false, " ");
+                n += 1;
+            }
+        }
+    }
+    for set in ["odd-then-same-256", "odd-then-same-65536"] {
+        let recs = c05_record_set(set);
+        for (writer, threads, limit) in [("mmap", 1usize, 4usize << 30), ("batch", 1, 4 << 30), ("batch", 4, 4 << 30), ("mmap", 3, 4 << 30)] {
+            if sh.mine() {
+                c05_config(ctx, set, &recs, 3, "fasta", threads, limit, writer, false, " ");
+                n += 1;
             }
         }
     }
@@ -1841,7 +1960,7 @@ pub fn batch_explore(ctx: &mut Ctx, case: &BatchCase, bound: Option<u32>, label:
     let ctl = ExecOpts { controlled: true, logging: true, symmetry: false };
     determinism_check(&what, |p| batch_exec(case, &scratch, case.threads, p, ctl).1);
     let always = |_: &Choice| true;
-    let cfg = ExploreCfg { bound, shard: (ctx.shard.idx, ctx.shard.n), split_level: 2, root: vec![], branch: &always, max_executions: 1_000_000 };
+    let cfg = ExploreCfg { bound, shard: (ctx.shard.idx, ctx.shard.n), split_level: 2, root: vec![], branch: &always, max_executions: 1_000_000, window: window_now() };
     let mut found: Option<(String, String, Vec<u8>)> = None;
     let mut orders: BTreeSet<String> = BTreeSet::new();
     let stats = explore(&cfg, |prefix, counted| {
